@@ -40,3 +40,7 @@
 ; ghost: txStopped (Array Val Bool)
 ; struct: query.Query
 ; ghost: iterQ S_query_Query
+; ghost: ndCalls (Array Val Int)
+; committed view of the store: what a transaction begun now would read (snapshot isolation, single writer)
+; ghost: cmHas (Array Str Bool)
+; ghost: cmVal (Array Str Bytes)
